@@ -8,6 +8,7 @@ import Hy.Drv.Speedtest
 import Hy.Drv.Rate
 import Hy.Drv.Frag
 import Hy.Drv.Salamander
+import Hy.Drv.Acl
 
 open Hy.Drv
 
@@ -36,4 +37,5 @@ def main (args : List String) : IO UInt32 := do
   | ["frag"] => loopPure stdin stdout Frag.step; return 0
   | ["defrag"] => loopState stdin stdout Frag.stepSt Frag.init; return 0
   | ["salamander"] => loopPure stdin stdout Salamander.step; return 0
+  | ["acl"] => loopState stdin stdout Acl.step Acl.init; return 0
   | _ => IO.eprintln "usage: hydrv <component>"; return 2
